@@ -2,9 +2,18 @@
    Proved for all programs: the name mangling that keeps frames apart is injective - two different functions
    never share a shell variable for their parameters and locals, a function gets a number no earlier function
    had; globals keep their own name wherever they are used; the call lines of the script are the calls of the
-   program in evaluation order (C04 theorems).  The simulation of calls (argument binding, return registers,
-   multi-value results; C02_full_statement) is decided by executing generated programs against Sem/Src.v. *)
-From Verif Require Import Base.Bytestr Front.Ast Back.BashLines Back.Transpile Back.BashConv Back.NameFacts Back.BashFacts.
+   program in evaluation order (C04 theorems).
+   Proved for functions whose body is a program of Sem/LoopPreserve.v (assignments, prints, conditionals, loops, calls of
+   earlier functions) followed by one return statement, and for single-result calls x = f(..), x := f(..), f(..) with
+   call-free arguments: the simulation itself (C02_function_refines, C02_calls_refined, C02_calls_preserved) -
+   arguments are bound to the parameters in order, the body sees the globals in place and its own frame, the caller's
+   locals are unchanged whatever the names, all returned values reach the return registers in order, at any nesting
+   depth of calls.  NOT covered by a theorem: slices as arguments, multi-value call sites a, b = f(), calls as arguments,
+   return inside a branch or loop; these are decided on generated programs against Sem/Src.v, and the flat shell model
+   with the script's functions as its call oracle is compared with /bin/bash on every such program it is defined on. *)
+From Verif Require Import Base.Bytestr Front.Ast Back.BashLines Back.Transpile Back.BashConv Back.NameFacts Back.BashFacts
+  Sem.Src Sem.BashSem Sem.ExprPreserve Sem.StmtPreserve Sem.IfPreserve Sem.FlatLoop Sem.LoopPreserve Sem.CallPreserve.
+From Coq Require Import ZArith.
 Open Scope N_scope.
 
 From Verif Require Import Facts.C02Facts.
@@ -31,6 +40,75 @@ Theorem C02_call_lines_of_statement : forall st s s',
   exists ls, b_code s' = b_code s ++ ls /\ call_lines ls = calls_stmt st.
 Proof. exact C02_call_lines_of_statement_proof. Qed.
 Print Assumptions C02_call_lines_of_statement.
+
+(* One call of a function.  The callee: translated from sf (after its header) over sb (after its body) to sr (after its
+   return statement), variables XSf, function number b_func_counter sf, loop flags from klo_f on; it may call functions
+   with numbers below mlo_f through the oracle call, which refines scall.  The caller: any code at state s with variables
+   XS whose globals are the callee's globals, whose environment sg is represented by the shell environment b, which
+   protects the flags from klo_c on and the mangled names from function number mlo_c on.  If the source runs the body
+   from the frame  bind params vals (globals_of sg)  to sgl printing o, and the returned expressions have the values
+   rvals there, then the definition's lines - the local lines of the parameters, the body, the return - run with the
+   argument texts as positional parameters from b terminate printing o in an environment bF that represents
+   leave sg sgl  for the caller (globals as the function left them, the caller's own locals as they were), differs from b
+   on nothing the caller protects, and holds the text of the i-th returned value in the i-th return register. *)
+Theorem C02_function_refines : forall call, fuel_mono call -> forall klo_f mlo_f scall, call_refines call klo_f mlo_f scall ->
+  forall klo_c mlo_c XSf sf sb sr params body es u u2 XS s b sg vals sgl o rvals,
+  (0 < b_funcs sf)%nat -> (b_func_counter sf < mlo_c)%nat -> (mlo_f <= mlo_c)%nat -> (b_for_counter sr <= klo_c)%nat ->
+  (forall x, In x XSf -> var_fine sf x) -> hygienic sf XSf -> names_inj sf XSf -> fresh_flags klo_f mlo_f XSf sf ->
+  (forall p, In p params -> v_global p = false /\ In p XSf) ->
+  (forall x, v_global x = true -> (In x XS <-> In x XSf)) ->
+  go_fix body sf = TOk u sb -> frag2_all body = true -> t_stmt bash_conv (SReturn es) sb = TOk u2 sr ->
+  forallb pure es = true -> (forall e, In e es -> side XSf e) ->
+  length vals = length params -> env_ok (bind params vals (globals_of sg)) ->
+  J scall XSf (Prog body) (bind params vals (globals_of sg)) sgl o SN -> pevals sgl es = Some rvals ->
+  ctx_ok XS sg b s -> fresh_flags klo_c mlo_c XS s ->
+  exists X bF, cext sf sr X /\
+    (forall rest, lruns call (map text vals) b [] (param_lines (b_func_counter sf) (map v_name params) 1 ++ X ++ rest) (bF, o)) /\
+    ctx_ok XS (leave sg sgl) bF s /\ untouched klo_c mlo_c XS s s b bF /\
+    (forall i v, nth_error rvals i = Some v -> sh_get (rv_name i) bF = text v).
+Proof. exact func_refines. Qed.
+Print Assumptions C02_function_refines.
+
+(* All functions of a script, at every nesting depth of calls: the script's own functions (call_of: look the definition
+   up, run its lines with the arguments as positional parameters, calls inside it one level down) refine the source
+   semantics of calls (scall_at: bind, run the body, evaluate the returned expressions, give the caller its locals back). *)
+Theorem C02_calls_refined : forall defs script, (forall F, In F defs -> fun_ok script F) ->
+  forall d klo mlo, call_refines (call_of script d) klo mlo (scall_at defs d klo mlo).
+Proof. exact calls_refined. Qed.
+Print Assumptions C02_calls_refined.
+
+(* Code that calls functions: what it prints - the output of the called functions in its place - and the final values of
+   its variables are those of the source. *)
+Theorem C02_calls_preserved : forall defs script d klo mlo pos, (forall F, In F defs -> fun_ok script F) ->
+  forall XS sg body sg' out s u s' b,
+  J (scall_at defs d klo mlo) XS (Prog body) sg sg' out SN -> go_fix body s = TOk u s' -> frag2_all body = true ->
+  env_ok sg -> ctx_ok XS sg b s -> fresh_flags klo mlo XS s ->
+  exists X b', b_code s' = b_code s ++ X /\ lruns (call_of script d) pos b [] X (b', out) /\ represents sg' b' s' XS.
+Proof. exact calls_preserved. Qed.
+Print Assumptions C02_calls_preserved.
+
+(* A sample run: func add(a int, b int) int { c := a + b; print("in", c); return c }
+   g := 1; y := add(g, 41); print(y, g); add(y, y) - the emitted lines, run by the flat shell model with the script's
+   own functions as the call oracle. *)
+Definition pa : var := mkVar (bs "a") (T DInt) false false.
+Definition pb : var := mkVar (bs "b") (T DInt) false false.
+Definition lc : var := mkVar (bs "c") (T DInt) false false.
+Definition gg : var := mkVar (bs "g") (T DInt) true false.
+Definition gy : var := mkVar (bs "y") (T DInt) true false.
+Definition prog_add : list stmt :=
+  [SFunc (bs "add") [T DInt] [pa; pb]
+     [SVarDef [lc] [EBinary (EVar pa) OpAdd (EVar pb)]; SPrint [EStr (bs "in"); EVar lc]; SReturn [EVar lc]] false;
+   SVarDef [gg] [EInt 1%Z];
+   SVarDefCall [gy] (ECall (bs "add") [T DInt] [EVar gg; EInt 41%Z]);
+   SPrint [EVar gy; EVar gg];
+   SExpr (ECall (bs "add") [T DInt] [EVar gy; EVar gy])].
+Example C02_call_sample :
+  match go_fix prog_add b_init with
+  | TOk _ s' => option_map snd (lrun (call_of (b_code s') 3) [] 2000 false [] [] (b_code s'))
+                = Some (bs "in 42" ++ [10] ++ bs "42 1" ++ [10] ++ bs "in 84" ++ [10])
+  | _ => False
+  end.
+Proof. vm_compute. reflexivity. Qed.
 
 Example C02_sample : mangled 1 (bs "x") = bs "f1_x" /\ mangled 12 (bs "_h3") = bs "f12__h3".
 Proof. vm_compute. split; reflexivity. Qed.
